@@ -377,7 +377,24 @@ pub fn gen_cmd_world(rng: &mut Rng, first_party_in_registry: bool) -> CmdWorld {
 /// mutate the remote state: peers add / revoke / change audits, new publisher data
 pub fn mutate_remote(rng: &mut Rng, w: &mut CmdWorld) -> String {
     let urls: Vec<String> = w.remote.peers.keys().cloned().collect();
-    match rng.below(4) {
+    match rng.below(5) {
+        4 => {
+            // crates.io now says something else about an existing version: another user, an
+            // unknown publisher, another day (crate deleted and re-registered, account removed)
+            let keys: Vec<String> = w.remote.registry.iter().filter(|(_, l)| !l.is_empty()).map(|(k, _)| k.clone()).collect();
+            if keys.is_empty() {
+                return "no-op".into();
+            }
+            let k = rng.pick(&keys).clone();
+            let l = w.remote.registry.get_mut(&k).unwrap();
+            let i = rng.below(l.len());
+            match rng.below(3) {
+                0 => l[i].user = Some(3 - l[i].user.unwrap_or(1).min(2)),
+                1 => l[i].user = None,
+                _ => l[i].day += 40,
+            }
+            format!("crates.io changes the publisher record of {k} {}", l[i].version)
+        }
         0 if !urls.is_empty() => {
             // revoke an audit
             let f = w.remote.peers.get_mut(rng.pick(&urls)).unwrap();
@@ -569,6 +586,41 @@ fn c11_files(r: &mut Report, before: &[String], after: &[String], live: Option<&
     }
 }
 
+/// C06 at the command layer: recompute every required chain from the records, with the publisher
+/// table rebuilt from the registry as served now.
+fn c06_live_publishers(r: &mut Report, p: &Project, w: &CmdWorld, case: &str) {
+    let Ok(store) = p.acquire(false) else { return };
+    let mut live = store.clone_for_suggest(false);
+    drop(store);
+    let Some(li) = &mut live.live_imports else { return };
+    let mut truth: SortedMap<PackageName, Vec<CratesPublisher>> = SortedMap::new();
+    for (name, l) in &w.remote.registry {
+        let v: Vec<CratesPublisher> = l.iter().filter_map(|rv| rv.user.map(|u| CratesPublisher {
+            version: VetVersion { semver: rv.version.clone(), git_rev: None }, when: gen::date(rv.day), user_id: u, user_login: format!("user{u}"), user_name: None, is_fresh_import: false,
+        })).collect();
+        if !v.is_empty() {
+            truth.insert(name.clone(), v);
+        }
+    }
+    li.publisher = truth;
+    let Some(spec) = core::Spec::new(&live.audits.criteria) else { return };
+    let sg = core::SpecGraph::new(&p.md);
+    let Some(demand) = sg.demand(&live.config.policy, &spec) else { return };
+    r.oracle_checked += 1;
+    for q in 0..sg.ids.len() {
+        if !sg.third_party(&live.config.policy, q) {
+            continue;
+        }
+        let Some(edges) = core::spec_edges(&live, &spec, &sg.name[q]) else { continue };
+        for c in 0..spec.crits.len() {
+            if demand[q] & (1 << c) != 0 && !core::spec_reach(&edges, c, &|_| true).contains(&Some(sg.ver[q].clone())) {
+                r.fail("oracle", "C06/cmd/grant-not-justified-by-live-registry", format!("the unlocked check succeeds, but with the publisher data crates.io serves now {}:{} has no certifying chain for `{}`", sg.name[q], sg.ver[q], spec.crits[c]), case);
+                return;
+            }
+        }
+    }
+}
+
 const COMMANDS: [&[&str]; 9] = [
     &[],
     &[],
@@ -653,7 +705,62 @@ pub fn gen_unpublished_world(rng: &mut Rng) -> CmdWorld {
     CmdWorld { graph, config, audits, remote }
 }
 
+/// Template worlds around publisher-based grants: one crates.io crate certified only through a
+/// wildcard audit or a trusted entry for the user who published the in-graph version; the history
+/// is check (the publisher record lands in imports.lock), then crates.io changes what it says
+/// about that very version, then check again.
+pub fn publisher_history(r: &mut Report, rng: &mut Rng, idx: u64) {
+    let v = |m: u64| VetVersion::parse(&format!("{m}.0.0")).unwrap();
+    let graph = gen::GGraph {
+        pkgs: vec![
+            gen::GPkg { name: "alfa".into(), version: v(1), source: 0, member: true, deps: vec![(1, 1)] },
+            gen::GPkg { name: "bravo".into(), version: v(2), source: 1, member: false, deps: vec![] },
+        ],
+        resolve_order: vec![0, 1],
+        member_order: vec![0],
+    };
+    let config = ConfigFile { cargo_vet: Default::default(), default_criteria: get_default_criteria(), imports: SortedMap::new(), policy: Default::default(), exemptions: SortedMap::new() };
+    let mut audits = AuditsFile { criteria: SortedMap::new(), wildcard_audits: SortedMap::new(), audits: SortedMap::new(), trusted: SortedMap::new() };
+    let day = rng.below(6) as i64 * 10;
+    let (start, end) = (gen::date(day - rng.below(3) as i64 * 5), gen::date(day + 1 + rng.below(3) as i64 * 5));
+    if rng.chance(1, 2) {
+        audits.wildcard_audits.insert("bravo".into(), vec![WildcardEntry { who: vec![], criteria: vec![gen::sp(SAFE_TO_DEPLOY.to_owned())], user_id: 1, start: gen::sp(start), end: gen::sp(end), renew: None, notes: None, aggregated_from: vec![], is_fresh_import: false }]);
+    } else {
+        audits.trusted.insert("bravo".into(), vec![TrustEntry { criteria: vec![gen::sp(SAFE_TO_DEPLOY.to_owned())], user_id: 1, start: gen::sp(start), end: gen::sp(end), notes: None, aggregated_from: vec![] }]);
+    }
+    let mut remote = Remote::default();
+    remote.registry.insert("bravo".into(), vec![RegVersion { version: semver::Version::new(1, 0, 0), user: Some(2), day: 0 }, RegVersion { version: semver::Version::new(2, 0, 0), user: Some(1), day }]);
+    let mut w = CmdWorld { graph, config, audits, remote };
+    let p = setup_project(&w);
+    r.evaluations += 1;
+    w.remote.install();
+    let mut trace = vec![format!("publisher-history#{idx}")];
+    let (o1, _) = p.run(&[]);
+    trace.push(format!("check -> {}", describe_outcome(&o1)));
+    let l = w.remote.registry.get_mut("bravo").unwrap();
+    let what = match rng.below(3) {
+        0 => { l[1].user = Some(2); "another user" }
+        1 => { l[1].user = None; "an unknown publisher" }
+        _ => { l[1].day += 200; "a day outside the window" }
+    };
+    trace.push(format!("remote: crates.io now records bravo 2.0.0 with {what}"));
+    w.remote.install();
+    let files = p.files();
+    let case = format!("{}\n--- audits.toml\n{}\n--- imports.lock\n{}", trace.join("\n"), files[0], files[2]);
+    let (o2, _) = p.run(&[]);
+    r.count(&format!("publisher-history:{}:{}", describe_outcome(&o1), describe_outcome(&o2)));
+    r.oracle_checked += 1;
+    if o2 == Outcome::Ok {
+        c06_live_publishers(r, &p, &w, &case);
+    }
+    r.nontrivial(&case);
+}
+
 pub fn run_history(r: &mut Report, rng: &mut Rng, idx: u64) {
+    if r.prop == "C06" && idx % 3 == 0 {
+        publisher_history(r, rng, idx);
+        return;
+    }
     if idx % 5 == 0 {
         let w = gen_unpublished_world(rng);
         let p = setup_project(&w);
@@ -791,6 +898,14 @@ pub fn exec_history(r: &mut Report, rng: &mut Rng, idx: u64, mut w: CmdWorld, p:
             nontrivial = true;
         }
         match prop.as_str() {
+            "C06" => {
+                // a passing unlocked run rests only on grants that what crates.io serves NOW
+                // justifies (exact version, that user, a day inside the window) — whatever an
+                // older imports.lock remembered
+                if is_check && !locked && o == Outcome::Ok {
+                    c06_live_publishers(r, &p, &w, &case);
+                }
+            }
             "C02" => {
                 // the exit status is non-zero exactly when the conclusion is not success, and the
                 // human report says which
